@@ -65,7 +65,11 @@ MANIFEST_TEXT = (
     "per-rank observations, and an oracle evaluating the property statement directly (shadow flags, expected collective "
     "results, the send object handed back, collective counts observed through PMPI) judges every case; an ownership "
     "oracle records the send/receive buffers of every posted operation in the interposed MPI_I* calls and requires them "
-    "to be live memory (ASan shadow) once the future has reached the object the calls are made on."
+    "to be live memory (ASan shadow) once the future has reached the object the calls are made on; since round four a "
+    "completion claim of a valid future (ready() == true, wait()/get()/get_send_data() returning) must be backed by MPI "
+    "having reported the request of the POSTED operation complete to that future (the interposed MPI_Wait/MPI_Test/... "
+    "compare the handle they are asked about with the one the interposed MPI_I* call produced) - 'becomes ready once the "
+    "operation has completed' for a future that does not hold the request of its operation."
 )
 MANIFEST_NOTE = (
     "Partial w.r.t. the runtime: MPI itself is trusted (a collective completes once every member entered it and "
@@ -117,7 +121,7 @@ ASSUMPTIONS = [
     "the collective results the futures deliver (sum/min/max, gather, scatter, broadcast, send/recv) are computed from the contributions at specification level; their MPI implementation is C07's subject",
 ]
 TRUSTED = ["translator tools/translators/tr_c19.py (statement grammar -> Lean programs / statement lists)", "mpicxx/g++/libstdc++, ASan/UBSan (incl. __asan_region_is_poisoned for the ownership oracle), Open MPI 4.1 (incl. its profiling interface)",
-           "harness/mpi_c19.cc (PMPI interposers, oracles) + Driver/C19.lean parsing/printing"]
+           "harness/mpi_c19.cc (PMPI interposers, oracles; the completion-claim oracle knows MPI_Wait, MPI_Waitall, MPI_Test, MPI_Testall, MPI_Request_get_status as ways of asking MPI about a request) + Driver/C19.lean parsing/printing"]
 
 
 def _b(np_, seed, seqlen, rnd, tier, tag, timeout, wrapenum=0):
